@@ -371,6 +371,10 @@ def make_module(family, quick_n, scale_max=10, extra_names=(), exclude=()):
             p = d.choice([10, 53, 113, 400, 600, 1000, 1500, 3000]) if d.bool() else d.int(10, 1100)
         if shard == "m":
             p = min(p, 250 if tier == "quick" else 1100)
+        if name in ("hyperfac", "barnesg", "superfac"):
+            # the reference implementation (mpmath 1.3.0) itself is only accurate to about 700 bits here: at 797 bits its
+            # hyperfac(0) differs from 1 in the 785th bit at both reference precisions (Glaisher / zeta'(-1) data)
+            p = min(p, 600)
         args, k = structure_args(d, name, p, scale_max if shard != "s" else 3)
         return {"name": name, "p": p, "args": args, "cls": "%s:%s" % (name, k)}
 
